@@ -2393,6 +2393,50 @@ def c06_sites(repo_root, tier):
 
 # --------------------------------------------------------------------------- C17 (bounded native probe of error positions)
 @register("C17")
+def c17_error_tokens(repo_root, tier):
+    """A raised error refers to the construct it describes: when the message of a syntax error quotes a token (its kind, text or
+    class), the error carries that token - not the one after it. And no token is built with a position outside every source."""
+    repo = Repo(repo_root)
+    obs = []
+    n = 0
+    for m, qual, cls, fn, parent in _all_functions(repo):
+        for r in own_nodes(fn):
+            if not (isinstance(r, ast.Raise) and isinstance(r.exc, ast.Call) and r.exc.args and isinstance(r.exc.args[0], ast.JoinedStr)):
+                continue
+            tokkw = [k.value for k in r.exc.keywords if k.arg == "token"]
+            if not tokkw:
+                continue
+            quoted = set()
+            for v in r.exc.args[0].values:
+                if isinstance(v, ast.FormattedValue):
+                    for a in ast.walk(v.value):
+                        if isinstance(a, ast.Attribute) and a.attr in ("type_", "value", "__class__") and isinstance(a.value, ast.Name) and "token" in a.value.id.lower():
+                            quoted.add(a.value.id)
+            if len(quoted) != 1:
+                continue
+            n += 1
+            q = next(iter(quoted))
+            ok = ast.unparse(tokkw[0]) == q
+            _ob(obs, f"{m.name}:{qual}/site.error-carries-the-token-it-quotes@{_ordinal(fn, r, ast.Raise)}", ok,
+                f"the message quotes `{q}` and the error carries `{q}`" if ok
+                else f"the message quotes `{q}` but the error carries `{ast.unparse(tokkw[0])}`: the reported position is that of another token (or none, at the end of an expression)")
+    _ob(obs, "liquid2/site.errors-quoting-a-token.count", n >= 10, f"{n} syntax errors whose message quotes a token")
+    # the end-of-input marker of an expression stream
+    sm = repo.module("liquid2.stream")
+    neg = []
+    for c in ast.walk(sm.tree) if sm else []:
+        if isinstance(c, ast.Call) and ast.unparse(c.func) == "Token":
+            for k in c.keywords:
+                if k.arg == "index" and isinstance(k.value, ast.UnaryOp) and isinstance(k.value.op, ast.USub):
+                    neg.append(ast.unparse(c))
+    _ob(obs, "liquid2.stream:TokenStream.eoi/site.no-token-outside-the-source", not neg,
+        "no token is constructed with a negative position" if not neg
+        else f"`{neg[0]}`: errors raised when the parser runs off the end of an expression carry this token - position -1, empty source - so they have no line or column although the enclosing tag is known",
+        witness=None if not neg else {"program": "from liquid2 import Environment\nfrom liquid2.exceptions import LiquidError\ntry:\n    Environment().from_string('{% assign x = %}')\n    VIOLATES = False\n    OBSERVED = 'parsed'\nexcept LiquidError as e:\n    VIOLATES = e.token is not None and e.token.start < 0\n    OBSERVED = f'error token start={e.token.start} stop={e.token.stop} context={e.context()}'\n"})
+    return {"obligations": obs, "samples": [], "trusted": [], "functions": [], "assumptions": []}
+
+
+@register("C17")
 def c17_probe(repo_root, tier):
     import json as _json
     import subprocess
